@@ -158,7 +158,7 @@ Definition constlookup_audit : list ((string * string * string * string * string
     (("XPathEnvSupportDefault", "s_externalFunctions", "Map", "XPathEnvSupportDefault::terminate", "arg,begin,end", "unguarded", "many(14)"), InitOnly, "terminate()");
     (("XPathEnvSupportDefault", "s_externalFunctions", "Map", "XPathEnvSupportDefault::uninstallExternalFunctionGlobal", "arg", "unguarded", "XSLTProcessorEnvSupportDefault::uninstallExternalFunctionGlobal;XalanExtensionsInstaller::doUninstallGlobal;XalanTransformer::uninstallExternalFunctionGlobal"), ConfigAPI, "installation API, documented as not thread safe");
     (("XPathProcessorImpl", "m_namespaces", "Map", "XPathProcessorImpl::replaceTokenWithNamespaceToken const", "end,find", "unguarded", "XPathProcessorImpl::FunctionCall;XPathProcessorImpl::NodeTest;XPathProcessorImpl::QName"), ConstructionOnly, "XPath compilation");
-    (("XalanDocumentPrefixResolver", "m_namespaces", "Map", "XalanDocumentPrefixResolver::getNamespaceForPrefix const", "end,find", "unguarded", "many(32)"), PerThread, "resolver objects are created per evaluation / per construction step");
+    (("XalanDocumentPrefixResolver", "m_namespaces", "Map", "XalanDocumentPrefixResolver::getNamespaceForPrefix const", "end,find", "unguarded", "many(33)"), PerThread, "resolver objects are created per evaluation / per construction step");
     (("XalanSet", "m_map", "Map", "XalanSet::begin const", "begin", "unguarded", "-"), ReadOnly, "container wrapper: every XalanSet data member is censused at its own lookup sites");
     (("XalanSet", "m_map", "Map", "XalanSet::end const", "end", "unguarded", "-"), ReadOnly, "as XalanSet::begin");
     (("XalanSet", "m_map", "Map", "XalanSet::find const", "find", "unguarded", "-"), ReadOnly, "as XalanSet::begin");
